@@ -9,8 +9,8 @@ from .ref import canon
 
 # ---------------------------------------------------------------- steps
 
-def gen_step(H, depth=0, max_depth=3, multi=False, allow=("elitism", "novelty", "tournament", "mutation", "crossover", "identity", "lexicase")):
-    """a JSON-able description of a step tree over the built-in steps"""
+def gen_step(H, depth=0, max_depth=3, multi=False, allow=("elitism", "novelty", "tournament", "mutation", "crossover", "identity", "lexicase"), repeat=False):
+    """a JSON-able description of a step tree over the built-in steps; repeat: a combinator may list one sub-step twice"""
     leaves = [a for a in allow if a != "lexicase" or multi]
     if depth >= max_depth or H.draw(3) == 0:
         k = H.pick(leaves)
@@ -25,7 +25,9 @@ def gen_step(H, depth=0, max_depth=3, multi=False, allow=("elitism", "novelty", 
         return [k]
     k = H.weighted([("sequence", 3), ("parallel", 4), ("exclusive", 2)])
     n = 1 + H.draw(3)
-    subs = [gen_step(H, depth + 1, max_depth, multi, allow) for _ in range(n)]
+    subs = [gen_step(H, depth + 1, max_depth, multi, allow, repeat) for _ in range(n)]
+    if repeat and H.draw(3) == 0:
+        subs.insert(H.draw(len(subs) + 1), subs[H.draw(len(subs))])
     if k == "sequence":
         return ["sequence", subs]
     weights = [H.pick([0, 1, 1, 2, 3, 5, 7, 90]) for _ in subs]
@@ -34,7 +36,31 @@ def gen_step(H, depth=0, max_depth=3, multi=False, allow=("elitism", "novelty", 
     return [k, subs, weights]
 
 
-def build_step(desc):
+def build_step(desc, share=None):
+    """share: a dict -> sub-steps with identical descriptions are ONE step object used at several positions of the pipeline"""
+    if desc[0] in ("sequence", "parallel", "exclusive"):
+        return _build_combinator(desc, share)
+    if share is None:
+        return _build_leaf(desc)
+    key = repr(desc)
+    if key not in share:
+        share[key] = _build_leaf(desc)
+    return share[key]
+
+
+def _build_combinator(desc, share):
+    from geneticengine.algorithms.gp.operators.combinators import ExclusiveParallelStep, ParallelStep, SequenceStep
+
+    k = desc[0]
+    subs = [build_step(d, share) for d in desc[1]]
+    if k == "sequence":
+        return SequenceStep(*subs)
+    if k == "parallel":
+        return ParallelStep(subs, weights=list(desc[2]))
+    return ExclusiveParallelStep(subs, weights=list(desc[2]))
+
+
+def _build_leaf(desc):
     from geneticengine.algorithms.gp.operators.combinators import ExclusiveParallelStep, IdentityStep, ParallelStep, SequenceStep
     from geneticengine.algorithms.gp.operators.crossover import GenericCrossoverStep
     from geneticengine.algorithms.gp.operators.elitism import ElitismStep
@@ -61,12 +87,6 @@ def build_step(desc):
         return GenericMutationStep(desc[1])
     if k == "crossover":
         return GenericCrossoverStep(desc[1])
-    if k == "sequence":
-        return SequenceStep(*[build_step(d) for d in desc[1]])
-    if k == "parallel":
-        return ParallelStep([build_step(d) for d in desc[1]], weights=list(desc[2]))
-    if k == "exclusive":
-        return ExclusiveParallelStep([build_step(d) for d in desc[1]], weights=list(desc[2]))
     raise ValueError(k)
 
 
